@@ -130,6 +130,8 @@ Fixpoint has_unknown (h : host) (e : expr) : Prop :=
   | XCall _ name args => unknown_fn h name \/
       (fix any (l : list expr) : Prop := match l with [] => False | a :: r => has_unknown h a \/ any r end) args
   | XArr _ items => (fix any (l : list expr) : Prop := match l with [] => False | a :: r => has_unknown h a \/ any r end) items
+  | XArr2 _ r1 r2 => (fix any (l : list expr) : Prop := match l with [] => False | a :: r => has_unknown h a \/ any r end) r1 \/
+                      (fix any (l : list expr) : Prop := match l with [] => False | a :: r => has_unknown h a \/ any r end) r2
   | XNeg e | XPar e => has_unknown h e
   | XBin _ l r => has_unknown h l \/ has_unknown h r
   end.
@@ -145,9 +147,16 @@ Proof.
     apply ebind_ok in H. destruct H as (ws & Hl & H & _). cbn in H. inversion H; subst.
     destruct (IH ws Hl) as [F L]. split; [constructor; eauto|cbn; lia].
 Qed.
+Lemma any_unknown_never h l vs : Forall (fun e => has_unknown h e -> forall v, fst (xval h e) <> ROk v) l ->
+  any_unknown h l -> fst (xvals (xval h) l) <> ROk vs.
+Proof.
+  intros IH U H. destruct (xvals_ok h l vs H) as [F _]. clear H.
+  induction IH as [|a l Ha Hl IHl]; [contradiction|]. inversion F as [|? ? Fa Fl]; subst.
+  destruct U as [U|U]; [destruct Fa as [w Fa]; exact (Ha U w Fa)|exact (IHl U Fl)].
+Qed.
 Theorem unknown_never_value h : forall e, has_unknown h e -> forall v, fst (xval h e) <> ROk v.
 Proof.
-  induction e as [d|ip fp|fp|pn|pa pb|str|xe|n|k lab|k1 l1 k2 l2|sp name args IHargs|sp items IHitems|e IH|b l r IHl IHr|e IH] using expr_ind'; cbn [has_unknown]; intros U v H;
+  induction e as [d|ip fp|fp|pn|pa pb|str|xe|n|k lab|k1 l1 k2 l2|sp name args IHargs|sp items IHitems|rs row1 row2 IHr1 IHr2|e IH|b l r IHl IHr|e IH] using expr_ind'; cbn [has_unknown]; intros U v H;
     try contradiction.
   - destruct U as [L S]. cbn [xval] in H. rewrite (variable_unknown h n L S) in H. discriminate.
   - change (unknown_fn h name \/ any_unknown h args) in U. cbn [xval] in H.
@@ -161,6 +170,9 @@ Proof.
     destruct (xvals_ok h items vs Hitems) as [F _]. clear Hitems.
     induction IHitems as [|a l Ha Hl IHl]; [contradiction|]. inversion F as [|? ? Fa Fl]; subst.
     destruct U as [U|U]; [destruct Fa as [w Fa]; exact (Ha U w Fa)|exact (IHl U Fl)].
+  - change (any_unknown h row1 \/ any_unknown h row2) in U. cbn [xval] in H.
+    apply ebind_ok in H. destruct H as (vs1 & H1 & H & _). apply ebind_ok in H. destruct H as (vs2 & H2 & _ & _).
+    destruct U as [U|U]; [exact (any_unknown_never h row1 vs1 IHr1 U H1)|exact (any_unknown_never h row2 vs2 IHr2 U H2)].
   - cbn [xval] in H. apply ebind_ok in H. destruct H as (w & Hw & _). exact (IH U w Hw).
   - cbn [xval] in H. apply ebind_ok in H. destruct H as (lv & Hl & H & _). apply ebind_ok in H. destruct H as (rv & Hr & _).
     destruct U as [U|U]; [exact (IHl U lv Hl)|exact (IHr U rv Hr)].
@@ -186,6 +198,7 @@ Fixpoint refs (e : expr) : list ref :=
   | XRange _ _ _ _ => [RRange]
   | XCall _ n args => flat_map refs args ++ [RCall n (length args)]
   | XArr _ items => flat_map refs items
+  | XArr2 _ r1 r2 => flat_map refs r1 ++ flat_map refs r2
   | XNeg e | XPar e => refs e
   | XBin _ l r => refs l ++ refs r
   end.
@@ -197,9 +210,17 @@ Proof.
   - destruct (mem_text name (h_registry h)); [|cbn; discriminate].
     destruct (builtin name args) as [[w|e| |]|]; cbn; try discriminate; reflexivity.
 Qed.
+Lemma xvals_events h l vs : Forall (fun e => forall v, fst (xval h e) = ROk v -> map ref_of (snd (xval h e)) = refs e) l ->
+  fst (xvals (xval h) l) = ROk vs -> map ref_of (snd (xvals (xval h) l)) = flat_map refs l.
+Proof.
+  intros IH. revert vs. induction IH as [|a l Ha Hl IHl]; intros vs H; [reflexivity|].
+  rewrite xvals_cons in H |- *. apply ebind_ok in H. destruct H as (w & Hw & H2 & ->).
+  apply ebind_ok in H2. destruct H2 as (ws & Hws & _ & ->). cbn [snd flat_map]. rewrite app_nil_r, map_app.
+  rewrite (Ha w Hw), (IHl ws Hws). reflexivity.
+Qed.
 Theorem events_postorder h : forall e v, fst (xval h e) = ROk v -> map ref_of (snd (xval h e)) = refs e.
 Proof.
-  induction e as [d|ip fp|fp|pn|pa pb|str|xe|n|k lab|k1 l1 k2 l2|sp name args IHargs|sp items IHitems|e IH|b l r IHl IHr|e IH] using expr_ind'; intros v H.
+  induction e as [d|ip fp|fp|pn|pa pb|str|xe|n|k lab|k1 l1 k2 l2|sp name args IHargs|sp items IHitems|rs row1 row2 IHr1 IHr2|e IH|b l r IHl IHr|e IH] using expr_ind'; intros v H.
   - reflexivity.
   - reflexivity.
   - reflexivity.
@@ -225,6 +246,8 @@ Proof.
     rewrite xvals_cons in Hitems |- *. apply ebind_ok in Hitems. destruct Hitems as (w & Hw & H2 & ->).
     apply ebind_ok in H2. destruct H2 as (ws & Hws & _ & ->). cbn [snd flat_map]. rewrite app_nil_r, map_app.
     rewrite (Ha w Hw), (IHl ws Hws). reflexivity.
+  - cbn [xval refs] in *. apply ebind_ok in H. destruct H as (vs1 & H1 & H & ->). apply ebind_ok in H. destruct H as (vs2 & H2 & _ & ->).
+    cbn [snd]. rewrite app_nil_r, map_app, (xvals_events h row1 vs1 IHr1 H1), (xvals_events h row2 vs2 IHr2 H2). reflexivity.
   - cbn [xval refs] in *. apply ebind_ok in H. destruct H as (w & Hw & _ & ->). cbn [snd]. rewrite app_nil_r. exact (IH w Hw).
   - cbn [xval refs] in *. apply ebind_ok in H. destruct H as (lv & Hl & H & ->). apply ebind_ok in H. destruct H as (rv & Hr & _ & ->).
     cbn [snd]. rewrite app_nil_r, map_app, (IHl lv Hl), (IHr rv Hr). reflexivity.
